@@ -1,26 +1,35 @@
 (* C14 — type-aware partial evaluation (TPE) and permission queries are sound.
-   Property theorems on the model coq/model/TPE.v; each is closed by `exact <lemma>` (proofs/TPEProofs.v) and
-   followed by Print Assumptions.
+   Property theorems on the model coq/model/TPE.v; each is closed by `exact <lemma>` (proofs/TPEProofs.v,
+   TPESound.v, TPELink.v) and followed by Print Assumptions.  `cx` is the extension-function library (any).
 
-   What is proved for ALL inputs:
-     c14_views                  policies(), policy_set(), get_policy(id) and the set reauthorize evaluates are the
-                                same id -> residual map (on /repo this is finding F-a until commit 9aa5b1e).
-     c14_decision_reauthorize   a definite TPE decision is the decision of reauthorization on EVERY request and store
-                                (no hypothesis: true / false / error residuals have that outcome everywhere).
-     c14_decision_concrete      given per-policy soundness (same id, effect, outcome class of original and residual
-                                on the completion) a definite decision is the from-scratch decision on the originals.
-     c14_reauthorize_concrete   given per-policy soundness, reauthorize decides like from-scratch authorization.
-     c14_query_exact            query_resource/principal = the candidates of the store allowed by reauthorization;
-     c14_query_brute            = the brute-force filter on the ORIGINAL policies, given per-policy soundness.
-     c14_query_action_label / c14_query_action_complete   Some Allow labels are sound; allowed actions are listed.
-   PARTIAL (the full statement `eval (to_expr (interp r)) ~ eval (to_expr r)` for every residual under Completes and
-   the no-error side condition is NOT proved; per-policy soundness is a hypothesis of the theorems above and is checked
-   on every completion by the correspondence and the implementation-level oracle):
-     c14_interp_sound_partial   covered fragment: the absorbing rules `l && false`, `l || true` under the visible
-                                no-error side condition (and their failure without it), the request variables
-                                principal / action / resource, and `is` on an unknown principal. *)
+   FULL (all inputs, no hypothesis beyond what the statement shows):
+     c14_views                   policies(), policy_set(), get_policy(id) and the set reauthorize evaluates are the
+                                 same id -> residual map (on /repo this was finding F-a until commit 9aa5b1e).
+     c14_decision_reauthorize    a definite TPE decision is the decision of reauthorization on EVERY request and store.
+     c14_reauthorize_concrete, c14_decision_concrete, c14_query_brute
+                                 decision / reauthorize / queries against the ORIGINAL policies, given per-policy
+                                 soundness as a hypothesis (kept: they hold for any library and any residuals).
+     c14_query_exact, c14_query_action_label, c14_query_action_complete
+     c14_residual_of_typed_expr  Residual::try_from_typed_expr preserves the meaning of the condition.
+     c14_and_false_needs_noerr   the `&& false` rule is unsound for an erroring left operand (why can_error exists).
+   PARTIAL — every arm of `interp` is covered, but the side condition `Side` is a HYPOTHESIS (it is what validation
+   gives on a conformant completion: operands of && / || are booleans when they evaluate, and a left operand whose
+   interpreted form has can_error = false does not error); deriving it from the typechecker model
+   (`c14_noerr_from_typing`) is not done.  `Completes` requires the known attributes / tags / context to be identical
+   to the concrete ones (canonical values) and the known ancestor set to be equal as a set.
+     c14_interp_sound_partial    forall residuals: eval (interp r) ~ eval r  (same value, or both error) under
+                                 Completes and Side — literals, variables (known/unknown principal, resource, context),
+                                 && / || incl. the can_error rule, if, !, neg, isEmpty, ==, <, <=, + - *, in (known /
+                                 unknown ancestors, entity and set right operands, empty set), getAttr / hasAttr
+                                 (records, known / unknown attributes, missing entities), is (incl. unknown principal /
+                                 resource), like, getTag / hasTag (tags None vs known), contains*, set / record
+                                 literals, extension calls.
+     c14_policy_sound_partial    a residual policy is sat / unsat / erroring exactly when its original is.
+     c14_decision_sound_partial, c14_reauthorize_sound_partial, c14_query_sound_partial
+                                 the decision / reauthorize / query theorems WITHOUT the per-policy soundness
+                                 hypothesis (only Completes, the typed condition annotates the policy, Side). *)
 From Coq Require Import List.
-From Cedar Require Import TPE TPEProofs.
+From Cedar Require Import TPE TPEProofs TPESound TPELink Typecheck TypecheckProofs TPETyping.
 Import ListNotations.
 
 Theorem c14_views :
@@ -33,80 +42,146 @@ Proof. exact views_agree. Qed.
 Print Assumptions c14_views.
 
 Theorem c14_decision_reauthorize :
-  forall (rs : list rpolicy) (d : decision), tpe_decision rs = Some d ->
-  forall (q : request) (es : entities), rdecision (reauthorize rs q es) = d.
+  forall cx (rs : list rpolicy) (d : decision), tpe_decision rs = Some d ->
+  forall (q : request) (es : entities), rdecision (reauthorize cx rs q es) = d.
 Proof. exact decision_reauthorize. Qed.
 Print Assumptions c14_decision_reauthorize.
 
 Theorem c14_reauthorize_concrete :
-  forall (q : request) (es : entities) (ps : list policy) (rs : list rpolicy),
-    Forall2 (policy_sound q es) ps rs ->
-    rdecision (is_authorized ps q es) = rdecision (reauthorize rs q es).
+  forall cx (q : request) (es : entities) (ps : list policy) (rs : list rpolicy),
+    Forall2 (policy_sound cx q es) ps rs ->
+    rdecision (is_authorized ps q es) = rdecision (reauthorize cx rs q es).
 Proof. exact reauthorize_concrete. Qed.
 Print Assumptions c14_reauthorize_concrete.
 
 Theorem c14_decision_concrete :
-  forall (q : request) (es : entities) (ps : list policy) (rs : list rpolicy) (d : decision),
-    Forall2 (policy_sound q es) ps rs ->
+  forall cx (q : request) (es : entities) (ps : list policy) (rs : list rpolicy) (d : decision),
+    Forall2 (policy_sound cx q es) ps rs ->
     tpe_decision rs = Some d -> rdecision (is_authorized ps q es) = d.
 Proof. exact decision_concrete. Qed.
 Print Assumptions c14_decision_concrete.
 
 Theorem c14_query_exact :
-  forall (fill : uid -> request) (hole : etype) (rs : list rpolicy) (es : entities),
-    query fill hole rs es =
-    filter (fun u => decision_eqb (rdecision (reauthorize rs (fill u) es)) Allow)
+  forall cx (fill : uid -> request) (hole : etype) (rs : list rpolicy) (es : entities),
+    query cx fill hole rs es =
+    filter (fun u => decision_eqb (rdecision (reauthorize cx rs (fill u) es)) Allow)
            (filter (fun u => name_eqb (uty u) hole) (map fst es)).
 Proof. exact query_exact. Qed.
 Print Assumptions c14_query_exact.
 
 Theorem c14_query_brute :
-  forall (fill : uid -> request) (hole : etype) (ps : list policy) (rs : list rpolicy) (es : entities),
-    (forall u, Forall2 (policy_sound (fill u) es) ps rs) ->
-    query fill hole rs es =
+  forall cx (fill : uid -> request) (hole : etype) (ps : list policy) (rs : list rpolicy) (es : entities),
+    (forall u, Forall2 (policy_sound cx (fill u) es) ps rs) ->
+    query cx fill hole rs es =
     filter (fun u => decision_eqb (rdecision (is_authorized ps (fill u) es)) Allow)
            (filter (fun u => name_eqb (uty u) hole) (map fst es)).
 Proof. exact query_brute. Qed.
 Print Assumptions c14_query_brute.
 
 Theorem c14_query_action_label :
-  forall (per : list (uid * list rpolicy)) (a : uid), In (a, Some Allow) (query_action per) ->
-    exists rs, In (a, rs) per /\ forall q es, rdecision (reauthorize rs q es) = Allow.
+  forall cx (per : list (uid * list rpolicy)) (a : uid), In (a, Some Allow) (query_action per) ->
+    exists rs, In (a, rs) per /\ forall q es, rdecision (reauthorize cx rs q es) = Allow.
 Proof. exact query_action_label. Qed.
 Print Assumptions c14_query_action_label.
 
 Theorem c14_query_action_complete :
-  forall (per : list (uid * list rpolicy)) (a : uid) (rs : list rpolicy) (q : request) (es : entities),
-    In (a, rs) per -> rdecision (reauthorize rs q es) = Allow ->
+  forall cx (per : list (uid * list rpolicy)) (a : uid) (rs : list rpolicy) (q : request) (es : entities),
+    In (a, rs) per -> rdecision (reauthorize cx rs q es) = Allow ->
     exists d, In (a, d) (query_action per) /\ d <> Some Deny.
 Proof. exact query_action_complete. Qed.
 Print Assumptions c14_query_action_complete.
 
+Theorem c14_and_false_needs_noerr :
+  forall cx q es l e, reval cx q es l = Err e ->
+    reval cx q es (RAnd l (RVal (VBool false))) <> reval cx q es (RVal (VBool false)).
+Proof. exact and_false_needs_noerr. Qed.
+Print Assumptions c14_and_false_needs_noerr.
+
 Theorem c14_interp_sound_partial :
-  (forall q es l b, reval q es l = Ok (VBool b) ->
-     reval q es (RAnd l (RVal (VBool false))) = reval q es (RVal (VBool false))) /\
-  (forall q es l b, reval q es l = Ok (VBool b) ->
-     reval q es (ROr l (RVal (VBool true))) = reval q es (RVal (VBool true))) /\
-  (forall q es l e, reval q es l = Err e ->
-     reval q es (RAnd l (RVal (VBool false))) <> reval q es (RVal (VBool false))) /\
-  (forall pq pes q es v, v <> Context -> request_consistent pq q = true ->
-     reval q es (interp pq pes (RVar v)) = reval q es (RVar v)) /\
-  (forall pq pes q es t, request_consistent pq q = true -> pq_pid pq = None ->
-     reval q es (interp pq pes (RIs (RVar Principal) t)) = reval q es (RIs (RVar Principal) t)).
-Proof.
-  exact (conj and_false_sound (conj or_true_sound (conj and_false_needs_noerr (conj var_sound is_var_sound)))).
-Qed.
+  forall cx pq pes q es, Completes pq pes q es ->
+  forall r, Side cx pq pes q es r -> sim (reval cx q es (interp cx pq pes r)) (reval cx q es r).
+Proof. exact interp_sound. Qed.
 Print Assumptions c14_interp_sound_partial.
 
-(* non-vacuity: a response with a definite Allow, one with no decision, and the dropped-operand rule at work *)
+Theorem c14_residual_of_typed_expr :
+  forall sl q es te r, of_texpr sl te = Some r -> reval call_ext q es r = eval sl q es (erase te).
+Proof. exact reval_of_texpr. Qed.
+Print Assumptions c14_residual_of_typed_expr.
+
+Theorem c14_policy_sound_partial :
+  forall pq pes q es tp p rp,
+    Completes pq pes q es -> annotates tp p -> policy_side pq pes q es tp ->
+    tpe_policy call_ext pq pes tp = Some rp -> policy_sound call_ext q es p rp.
+Proof. exact policy_sound_tpe. Qed.
+Print Assumptions c14_policy_sound_partial.
+
+Theorem c14_decision_sound_partial :
+  forall pq pes q es tps ps rs d,
+    Completes pq pes q es -> Forall2 annotates tps ps -> Forall (policy_side pq pes q es) tps ->
+    tpe call_ext pq pes tps = Some rs -> tpe_decision rs = Some d ->
+    rdecision (is_authorized ps q es) = d.
+Proof. exact decision_sound. Qed.
+Print Assumptions c14_decision_sound_partial.
+
+Theorem c14_reauthorize_sound_partial :
+  forall pq pes q es tps ps rs,
+    Completes pq pes q es -> Forall2 annotates tps ps -> Forall (policy_side pq pes q es) tps ->
+    tpe call_ext pq pes tps = Some rs ->
+    rdecision (is_authorized ps q es) = rdecision (reauthorize call_ext rs q es).
+Proof. exact reauthorize_sound. Qed.
+Print Assumptions c14_reauthorize_sound_partial.
+
+Theorem c14_query_sound_partial :
+  forall pq pes fill hole es tps ps rs,
+    (forall u, Completes pq pes (fill u) es) -> Forall2 annotates tps ps ->
+    (forall u, Forall (policy_side pq pes (fill u) es) tps) ->
+    tpe call_ext pq pes tps = Some rs ->
+    query call_ext fill hole rs es =
+    filter (fun u => decision_eqb (rdecision (is_authorized ps (fill u) es)) Allow)
+           (filter (fun u => name_eqb (uty u) hole) (map fst es)).
+Proof. exact query_sound. Qed.
+Print Assumptions c14_query_sound_partial.
+
+(* towards c14_noerr_from_typing: on the fragment covered by C03's typechecker soundness (literals, variables, &&, ||,
+   !, ==, has / get on the context) a typechecked expression does not error on a request of the environment and
+   yields a value of its type; a Bool-typed one yields a boolean (the `boolish` / no-error premises of Side).
+   PARTIAL: the fragment is C03's, and the derivation of Side for every sub-residual is not assembled. *)
+Theorem c14_noerr_from_typing_partial :
+  forall m sch env q es, env_ok env q ->
+  forall e, in_fragment e = true ->
+  forall cs t cs', caps_hold q es cs -> tc m sch env cs e = Some (t, cs') ->
+  exists v, eval [] q es e = Ok v /\ TypeConforms v t.
+Proof. exact noerr_from_typing. Qed.
+Print Assumptions c14_noerr_from_typing_partial.
+
+(* non-vacuity: a response with a definite Allow, one with no decision, the dropped-operand rule at work *)
 Example c14_example :
   let u := mkUid [[85%N]] [97%N] in
   let pq := mkPRequest [[85%N]] None u [[85%N]] (Some [97%N]) None in
-  let r1 := interp pq [] (RAnd (RBin BEq (RVar Principal) (RVar Resource)) (RVal (VBool false))) in
-  let r2 := interp pq [] (RAnd (RBin BLess (RBin BAdd (RGetAttr (RVar Principal) [120%N]) (RVal (VLong 1))) (RVal (VLong 0)))
+  let r1 := interp call_ext pq [] (RAnd (RBin BEq (RVar Principal) (RVar Resource)) (RVal (VBool false))) in
+  let r2 := interp call_ext pq [] (RAnd (RBin BLess (RBin BAdd (RGetAttr (RVar Principal) [120%N]) (RVal (VLong 1))) (RVal (VLong 0)))
                                (RVal (VBool false))) in
   bucket_of r1 = KFalse /\ bucket_of r2 = KResidual /\
   tpe_decision [mkRPolicy [49%N] Permit (RVal (VBool true)); mkRPolicy [50%N] Forbid r1] = Some Allow /\
   tpe_decision [mkRPolicy [49%N] Permit (RVal (VBool true)); mkRPolicy [50%N] Forbid r2] = None /\
   request_consistent pq (mkRequest u u u []) = true.
 Proof. vm_compute. repeat split; reflexivity. Qed.
+
+(* non-vacuity of the hypotheses of the soundness theorems: a consistent completion and a residual with a dropped
+   operand satisfying the side condition *)
+Example c14_sound_example :
+  let u := mkUid [[85%N]] [97%N] in
+  let pq := mkPRequest [[85%N]] None u [[85%N]] (Some [97%N]) None in
+  let q := mkRequest u u u [] in
+  let r := RAnd (RBin BEq (RVar Principal) (RVar Resource)) (RVal (VBool false)) in
+  Completes pq [] q [] /\ Side call_ext pq [] q [] r /\ bucket_of (interp call_ext pq [] r) = KFalse.
+Proof.
+  cbv zeta. split; [|split].
+  - constructor; cbn; try reflexivity; intros; try discriminate.
+    inversion H; reflexivity.
+  - cbn. repeat split; try exact I.
+    + intros v H. vm_compute in H. inversion H. exists true. reflexivity.
+    + intros v H. vm_compute in H. inversion H. exists false. reflexivity.
+    + intros _ e H. vm_compute in H. discriminate.
+  - vm_compute. reflexivity.
+Qed.
